@@ -37,4 +37,13 @@ CHECKS = {
         note="Trusted: TLC; payload (eval, move, bound) treated as opaque text. Exhaustive within the stated constants; longer histories "
              "and 64-bit keys sampled. A lookup answering 'nothing' is accepted (the property allows it) and reported as deviation.",
         technique="TLA+ table spec model-checked by TLC; all bounded-model histories replayed on the real table; TLC trace validation"),
+    "C10": dict(
+        text="Decided exhaustively. Geometry.tla defines slider attacks by ray walks, leaper patterns, segments and lines. The "
+             "specification prints the ray list of every (piece, square); the harness asks the engine's tables for EVERY subset of each "
+             "square's rays (1 119 744 look-ups), the knight/king tables and segment/line for all 64x64 pairs; TLC validates every answer "
+             "(GeoTrace.tla). The engine's pre-mask is checked to lie on the rays, so other bits cannot matter; additionally random "
+             "64-bit occupancies incl. queen.",
+        design_ref="DESIGN.md section 5, C10",
+        note="Trusted: TLC; Geometry.tla (internal consistency GeoSane checked by TLC); harness bit-mask encoding of answers.",
+        technique="TLA+ geometry spec; exhaustive dump of the real tables validated by TLC (trace validation)"),
 }
